@@ -30,16 +30,39 @@ def listed(a, b, wit):
     return (a, b) in wit or (b, a) in wit
 
 
-def explained(kind, a, b, wit):
-    """Is the collision of a and b (same UUID, different values) one of the listed findings, or —
-    for a triple — entirely due to listed component collisions?"""
+def in_class(a, b):
+    """The call site a collision of two component values belongs to (a listed finding is identified by its call
+    site: every pair of the class is the same finding), or None."""
+    fa, fb = a.split(","), b.split(",")
+    ka, kb = fa[0], fb[0]
+    if ka[0] == "L" and kb[0] == "L" and ka != kb:
+        return "lit-cross-type"
+    if ka == "N" and kb == "N" and len(fa) == 3 and len(fb) == 3 and fa[1] + fa[2] == fb[1] + fb[2]:
+        return "node-boundary"
+    if ka == "PT" and kb == "PT" and fa[1] == fb[1]:
+        try:
+            if (int(fa[2]) - int(fb[2])) % (1 << 64) == 0 and fa[2] != fb[2]:
+                return "anchor-wrap"
+        except ValueError:
+            pass
+    if ka[0] != kb[0] or (ka[0] == "P" and kb[0] == "P" and ka != kb):
+        return "object-kind"
+    return None
+
+
+def explained(kind, a, b, wit, classes=(), model_eq=False):
+    """Is the collision of a and b (same UUID, different values) one of the listed findings — a listed witness
+    pair, or a pair of the class (call site) of a listed finding that the proved pre-image model predicts — or,
+    for a triple, entirely due to such component collisions?"""
     if comp_equal(a, b):
         return True
     if listed(a, b, wit):
         return True
+    if kind != "triple" and model_eq and in_class(a, b) in classes:
+        return True
     if kind == "triple":
         ca, cb = a.split(" "), b.split(" ")
-        return all(comp_equal(x, y) or listed(x, y, wit) for x, y in zip(ca, cb))
+        return all(comp_equal(x, y) or listed(x, y, wit) or (model_eq and in_class(x, y) in classes) for x, y in zip(ca, cb))
     return False
 
 
@@ -60,7 +83,7 @@ def run(r: core.Run):
                      "(near-collision families, the shared universe, all int64 2^k±1 and float64 single-bit patterns, random "
                      "triples); pairs are compared implementation (UUID equal) / model (pre-image equal) / spec (values equal); "
                      "non-trivial = distinct values with a UUID + distinct pairs with equal UUIDs")
-    d = os.path.join(core.BUILD, "scratch")
+    d = core.SCRATCH
     os.makedirs(d, exist_ok=True)
     base = os.path.join(d, "C06")
     tie = None
@@ -81,6 +104,8 @@ def run(r: core.Run):
         core.run_driver(["uuid", "spec"], stdin_path=base + ".ops", out_path=base + ".spec")
         ver = core.run_bwh(["uuidverify", "-impl", base + ".impl", "-model", base + ".model"])
         ops, impl, spec = core.read_lines(base + ".ops"), core.read_lines(base + ".impl"), core.read_lines(base + ".spec")
+        model = core.read_lines(base + ".model")
+        classes = {f.get("class") for f in finds if f.get("class")}
         mism = [l for l in ver if l and not l.endswith(" ok")]
         vals, kinds = {}, {}
         distinct = set()
@@ -109,11 +134,14 @@ def run(r: core.Run):
                 if "Equal-disagrees" in a:
                     bad.append({"what": "Triple.Equal disagrees with UUID equality", "pair": [va, vb]})
                 if a.split(" ")[0] != s:
-                    if a.startswith("eq") and explained(k, va, vb, wit):
+                    meq = i < len(model) and model[i].split(" ")[0] == "eq"
+                    if a.startswith("eq") and explained(k, va, vb, wit, classes, meq):
                         for f_ in finds:
                             for x, y in f_.get("witness_pairs", []):
                                 if k != "triple" and listed(va, vb, {(canon(x), canon(y))}):
                                     reproduced.add(f_["id"])
+                            if k != "triple" and meq and f_.get("class") and in_class(va, vb) == f_["class"]:
+                                reproduced.add(f_["id"])
                     else:
                         bad.append({"what": f"UUIDs are {'equal' if a.startswith('eq') else 'different'} but the values are "
                                             f"{'equal' if s == 'eq' else 'different'}", "kind": k, "pair": [va, vb]})
